@@ -186,10 +186,11 @@ def h_constants(ctx):
         ctx.eq('SI prefix %s' % k, c.prefixes[k], v)
 
 
-def h_spectro(ctx):
-    """spectroscopic helpers are mutually inverse for all x > 0, and agree with one another"""
+def h_spectro(ctx, sign=1):
+    """spectroscopic helpers are mutually inverse for all x != 0 (either sign: imaginary modes are entered as negative
+    wavenumbers), and agree with one another"""
     from pmutt import constants as c
-    x = ctx.real('x', 1e-30, 1e30)
+    x = ctx.real('x', 1e-30, 1e30) if sign > 0 else ctx.real('x', -1e30, -1e-30)
     kinds = ['energy', 'freq', 'temp', 'wavenumber']
     fn = lambda a, b: getattr(c, '%s_to_%s' % (a, b))
     for a, b in itertools.permutations(kinds, 2):
@@ -265,7 +266,8 @@ def groups(tier):
         g.append(dict(name='cross/%s' % t, harness=h_cross, params=dict(qtype=t)))
     g.append(dict(name='derived-units', harness=h_derived))
     g.append(dict(name='constants', harness=h_constants))
-    g.append(dict(name='spectroscopic', harness=h_spectro))
+    g.append(dict(name='spectroscopic/positive', harness=h_spectro, params=dict(sign=1)))
+    g.append(dict(name='spectroscopic/negative', harness=h_spectro, params=dict(sign=-1)))
     g.append(dict(name='elements', harness=h_elements, no_validate=True))
     seed = int(os.environ.get('VERIF_SEED', '0') or 0)
     rnd = random.Random(seed)
